@@ -852,7 +852,7 @@ func (cs *clientStream) RecvMsg(m any) error {
 
 type serverStream struct{ s *stream }
 
-func (ss *serverStream) Context() context.Context       { return ss.s.sctx }
+func (ss *serverStream) Context() context.Context        { return ss.s.sctx }
 func (ss *serverStream) SetHeader(md metadata.MD) error  { return ss.s.call.SetHeader(md) }
 func (ss *serverStream) SendHeader(md metadata.MD) error { return ss.s.call.SendHeader(md) }
 func (ss *serverStream) SetTrailer(md metadata.MD) {
